@@ -670,6 +670,29 @@ def family(crate, body, depth=0):
     out += [c for c in crate.bodies if c.kind in ('closure', 'coroutine') and c.path.startswith(body.path + '::') and c is not body]
     if depth < 3:
         kn = mirlib.known_fns().get(crate.name, set())
+        # functions written after the pinned tree that are handed over as values (`.map_or_else(default, decode_header)`) are not
+        # spliced (there is no call); they belong to the family of whoever names them
+        for src in list(out):
+            refs = set()
+            for bb_ in src.live_blocks():
+                t_ = src.term(bb_)
+                if t_['k'] == 'call':
+                    refs.update(a_['k']['fn'] for a_ in t_['args'] if 'k' in a_ and a_['k'].get('fn'))
+                for st_ in src.blocks[bb_]['stmts']:
+                    rv_ = st_.get('rv') if isinstance(st_, dict) else None
+                    if isinstance(rv_, dict):
+                        for o_ in list(rv_.get('ops', [])) + [rv_[k_] for k_ in ('use', 'op') if isinstance(rv_.get(k_), dict)]:
+                            if isinstance(o_, dict) and 'k' in o_ and o_['k'].get('fn'):
+                                refs.add(o_['k']['fn'])
+            for fn_ in sorted(refs):
+                base_ = re.sub(r'::<[^:]*>$', '', fn_)
+                if base_ in kn or not base_.startswith(crate.name + '::'):
+                    continue
+                for c in [x for x in crate.bodies if x.kind == 'fn' and x.path == base_]:
+                    if c not in out:
+                        for m in family(crate, c, depth + 1):
+                            if m not in out:
+                                out.append(m)
         for src in list(out):
             for bb, i, p, a, ops in mirlib.aggregates(src):
                 if a.get('kind') == 'closure' and a.get('def'):
@@ -1149,4 +1172,91 @@ def callee_loc(term):
             return (t[1], tuple(reversed(fields)))
         else:
             return None
+    return None
+
+
+# ---------------------------------------------------------------- tables written as data
+def const_table(crate, term):
+    """entries of the constant array a term reads (`T`, `&T`, `T.iter()`, `T[i]`): list of entry terms, else None"""
+    cds = find_terms(term, lambda y: isinstance(y, tuple) and y and y[0] == 'constdef')
+    for cd in cds:
+        for bd in crate.by_path.get(cd[1], []):
+            if bd.kind in ('const', 'static'):
+                rt = mirlib.returned_terms(bd)
+                if len(rt) == 1:
+                    v = strip_refs(mirlib.simplify(rt[0][1]))
+                    while v and v[0] == 'cast' and len(v) > 2:
+                        v = strip_refs(v[2])
+                    if v and v[0] == 'agg' and v[1].get('kind') == 'array':
+                        return [strip_refs(e) for e in v[2]]
+    return None
+
+
+def _closure_body(crate, t):
+    t = strip_refs(t)
+    if t and t[0] == 'agg' and isinstance(t[1], dict) and t[1].get('def'):
+        try:
+            return crate.body(re.compile('^' + re.escape(t[1]['def']) + '$'))
+        except CheckError:
+            return None
+    return None
+
+
+def table_lookup(crate, term):
+    """read `TABLE.iter().find(|e| key_of(e) == probe).map*(dflt?, |e| value_of(e))`, `TABLE.iter().position(|e| key_of(e) == probe)`
+    and `TABLE[i]`: returns dict(kind='find'|'position'|'index', entries=[entry terms], key=fn(entry)->term, value=fn(entry)->term|None,
+    probe=term, default=term|None) or None.  key/value project a field of a tuple entry (or the entry itself)."""
+    t = strip_refs(mirlib.simplify(term))
+    default = None
+    proj = None
+    # peel map_or_else / map_or / map / copied / cloned
+    for _ in range(4):
+        if is_call(t) and t[3] in ('map_or_else', 'map_or') and len(t[2]) == 3:
+            default, proj, t = t[2][1], t[2][2], strip_refs(t[2][0])
+        elif is_call(t) and t[3] == 'map' and len(t[2]) == 2 and 'Option' in t[1]:
+            proj, t = t[2][1], strip_refs(t[2][0])
+        elif is_call(t) and t[3] in ('copied', 'cloned') and t[2]:
+            t = strip_refs(t[2][0])
+        else:
+            break
+    if is_call(t) and t[3] in ('find', 'position') and len(t[2]) == 2 and is_call(strip_refs(t[2][0]), name='iter'):
+        ents = const_table(crate, t[2][0])
+        pb = _closure_body(crate, t[2][1])
+        if ents is None or pb is None:
+            return None
+        # predicate: eq(key_of(element), captured probe)
+        rt = mirlib.returned_terms(pb)
+        if len(rt) != 1:
+            return None
+        pr = strip_refs(rt[0][1])
+        if not (is_call(pr) and pr[3] in ('eq',) and len(pr[2]) == 2):
+            return None
+        sides = pr[2]
+        elem_side = [x for x in sides if mentions_arg(x, 2)]
+        env_side = [x for x in sides if not mentions_arg(x, 2)]
+        if len(elem_side) != 1 or len(env_side) != 1:
+            return None
+        kf = [x[2] for x in find_terms(elem_side[0], lambda y: isinstance(y, tuple) and y and y[0] == 'field' and arg_root(y) == 2 and isinstance(y[2], (int, str)) and str(y[2]).lstrip('.').isdigit())]
+        kidx = int(str(kf[0]).lstrip('.')) if kf else None
+        vidx = None
+        if proj is not None:
+            vb = _closure_body(crate, proj)
+            if vb is None:
+                return None
+            vr = mirlib.returned_terms(vb)
+            if len(vr) != 1:
+                return None
+            vf = [x[2] for x in find_terms(vr[0][1], lambda y: isinstance(y, tuple) and y and y[0] == 'field' and arg_root(y) == 2 and str(y[2]).lstrip('.').isdigit())]
+            vidx = int(str(vf[0]).lstrip('.')) if vf else None
+        pick = lambda e, ix: (strip_refs(e[2][ix]) if (ix is not None and e and e[0] == 'agg' and e[1].get('kind') == 'tuple' and ix < len(e[2])) else e)
+        return dict(kind=t[3], entries=ents, key=lambda e: pick(e, kidx), value=(lambda e: pick(e, vidx)) if proj is not None else None,
+                    probe=env_side[0], default=default)
+    ix = find_terms(t, lambda y: isinstance(y, tuple) and y and y[0] == 'index' and const_table(crate, y[1]) is not None)
+    if ix:
+        ents = const_table(crate, ix[0][1])
+        # which field of the entry is taken
+        fld = [x for x in find_terms(t, lambda y: isinstance(y, tuple) and y and y[0] == 'field' and strip_refs(y[1]) is not None and strip_refs(y[1])[:1] == ('index',))]
+        fidx = int(str(fld[0][2]).lstrip('.')) if fld and str(fld[0][2]).lstrip('.').isdigit() else None
+        pick = lambda e, ix_: (strip_refs(e[2][ix_]) if (ix_ is not None and e and e[0] == 'agg' and e[1].get('kind') == 'tuple' and ix_ < len(e[2])) else e)
+        return dict(kind='index', entries=ents, key=None, value=lambda e: pick(e, fidx), probe=ix[0][2], default=None)
     return None
